@@ -371,8 +371,7 @@ class Program:
         if not k:
             return set()
         res = {k}
-        if call.get('virtcall') or (call.get('cvirt') and call.get('k') != 'CXXConstructExpr'
-                                    and not call.get('qualified')):
+        if call.get('virtcall'):
             res |= self.all_overriders(k)
         return res
 
